@@ -252,30 +252,36 @@ inductive NumDesc where
 def digitsValue (base : Nat) (ds : List UInt8) : Nat :=
   ds.foldl (fun acc c => acc * base + (hexVal? c).getD 0) 0
 
+/-- the mantissa scan of `strtod`: integer digits, then optionally `.` and fraction digits;
+returns `(integer digits, fraction digits, unread rest)` -/
+def scanMantissa (s : List UInt8) : List UInt8 × List UInt8 × List UInt8 :=
+  let ip := s.takeWhile isDigit
+  match s.drop ip.length with
+  | [] => (ip, [], [])
+  | c :: r' =>
+    if c == 46 then (ip, r'.takeWhile isDigit, r'.drop (r'.takeWhile isDigit).length)
+    else (ip, [], c :: r')
+
+/-- what follows `e`/`E`: `[+-] digits+` up to the end of the text -/
+def scanExponent (r : List UInt8) : Option Int :=
+  match r with
+  | 43 :: ed => if ed.isEmpty || !ed.all isDigit then none else some (digitsValue 10 ed : Nat)
+  | 45 :: ed => if ed.isEmpty || !ed.all isDigit then none else some (-((digitsValue 10 ed : Nat) : Int))
+  | ed => if ed.isEmpty || !ed.all isDigit then none else some (digitsValue 10 ed : Nat)
+
 /-- C `strtod` restricted to what can follow in a number token (no sign, no blanks, not hex):
 `digits* [. digits*] [(e|E) [+-] digits+]` with at least one mantissa digit, all consumed. -/
 def strtodDecimal (s : List UInt8) : Option NumDesc :=
-  let ip := s.takeWhile isDigit
-  let r := s.drop ip.length
-  let (fp, r) : List UInt8 × List UInt8 := match r with
-    | 46 :: r' => (r'.takeWhile isDigit, r'.drop (r'.takeWhile isDigit).length)
-    | _ => ([], r)
-  if ip.isEmpty && fp.isEmpty then none
-  else
-    let mant := digitsValue 10 (ip ++ fp)
-    match r with
-    | [] => some (.dec mant (-(fp.length : Int)))
-    | c :: r' =>
-      if c == 101 || c == 69 then
-        let (neg, ed) : Bool × List UInt8 := match r' with
-          | 43 :: x => (false, x)
-          | 45 :: x => (true, x)
-          | x => (false, x)
-        if ed.isEmpty || !ed.all isDigit then none
-        else
-          let e : Int := digitsValue 10 ed
-          some (.dec mant ((if neg then -e else e) - (fp.length : Int)))
-      else none
+  match scanMantissa s with
+  | (ip, fp, r) =>
+    if ip.isEmpty && fp.isEmpty then none
+    else
+      match r with
+      | [] => some (.dec (digitsValue 10 (ip ++ fp)) (-(fp.length : Int)))
+      | c :: r' =>
+        if c == 101 || c == 69 then
+          (scanExponent r').map fun e => .dec (digitsValue 10 (ip ++ fp)) (e - (fp.length : Int))
+        else none
 
 /-- `strtoull(s, &end, base)` with `*end == 0` required, on digit-only input -/
 def strtoullAll (base : Nat) (s : List UInt8) : Option Nat :=
